@@ -33,7 +33,10 @@ R = Rules(
         "to the statement that cut it from the spool, the advance may stand before or after the decoding; "
         "tests on locals that were just assigned a constant are decided at the assignment; locals are replaced by their unique "
         "reaching definition only while the attributes they read are not stored again; constructor keywords and attribute "
-        "assignments on a fresh Message are the same fact."
+        "assignments on a fresh Message are the same fact.  The peer's settings are followed as an object: a must-alias / "
+        "nullness data-flow of self._remote_settings per signalling code decides which locals are the settings dictionary at a store, "
+        "whether that dictionary is still the one the field holds at the normal exit (stores through an alias, or into a dictionary "
+        "that is published afterwards, are stores into the settings), and that the field is not None at the normal exit of a CSM."
     ),
     rule_text=(
         "piecewise tables from a path evaluator over a restricted statement language (intervals via DNF normal forms), "
@@ -1524,7 +1527,7 @@ def g(ctx):
         return isinstance(e, ast.Attribute) and chain(e) == FIELD
 
     for x in ast.walk(fi.node):
-        ctx.need(not isinstance(x, ast.Nonlocal), "a nested function of _process_signaling rebinds its locals")
+        ctx.need(not isinstance(x, (ast.Nonlocal, ast.Global)), "names of _process_signaling can be rebound from outside its own body (global / nonlocal)")
     # closed-world premise for "a call does not swap the settings object under a local
     # alias": no function of the package other than this one (and constructors, which do
     # not run on an existing connection) assigns or deletes <x>._remote_settings
@@ -1567,9 +1570,14 @@ def g(ctx):
         """what happens, from node nid on, to the object the field holds at nid:
         'kept' (never replaced), 'dropped' (replaced by a fresh object that owes
         nothing to it: what was stored is lost), 'unsure'"""
-        fate = "kept"
-        for b in later_binders(FIELD, nid, fl):
+        dropping = []
+        for b in sorted(later_binders(FIELD, nid, fl)):
             rb = rebind_at.get(b)
+            if rb is not None and fl.field_nullness(b) == K.NULL_NONE:
+                # lazy initialisation: the field holds None here, so the dictionary that was
+                # stored into at nid is not what this assignment replaces (whatever put None
+                # there is a binder of its own and judged on its own)
+                continue
             if rb is None or rb[1] is None:
                 return "unsure"
             val = rb[1]
@@ -1577,9 +1585,9 @@ def g(ctx):
                 continue  # assigns the object it already holds
             if any(is_field(x) for x in ast.walk(val)) or ({x.id for x in ast.walk(val) if isinstance(x, ast.Name)} & (may | fl.aliases(b))):
                 return "unsure"  # may be a copy that carries the entries over
-            fate = "dropped"
-            drops.add(id(rb[0]))
-        return fate
+            dropping.append(id(rb[0]))
+        drops.update(dropping)
+        return "dropped" if dropping else "kept"
 
     effects = {}  # (kind, id(site), key text) -> [kind, site, key, value, node id, alive codes]
     unsure = {}
